@@ -12,7 +12,7 @@ that is not modelled raises `Unmodelled` so that the calling rule can fall back 
 """
 import itertools
 from analysis import cname
-from facts import strip_generics, last_seg
+from facts import strip_generics, last_seg, ty_head
 
 
 class Unmodelled(Exception):
@@ -683,6 +683,21 @@ class Interp:
             return A[0]
         if name == 'core::ops::try_trait::Try::from_output':
             return mk_option(A[0])
+        if name in ('core::ops::index::Index::index', 'core::ops::index::IndexMut::index_mut') and len(A) == 2:
+            recv, ix = self.deref_all(A[0]), self.deref_all(A[1])
+            if recv is not None and recv[0] == 'vec' and ix[0] == 'int' and ix[1] is not None:
+                if ix[1] >= len(recv[1]):
+                    raise PanicPath('index out of bounds')
+                return ('ref', Cell(recv[1][ix[1]]))
+            if recv is not None and recv[0] == 'map' and ix[0] == 'key':
+                if ix[1] not in recv[1].items:
+                    raise PanicPath('no entry for the key')
+                return ('ref', recv[1].items[ix[1]])
+        if name == 'core::default::Default::default' and not A:
+            body_, t_ = getattr(self, 'cur', (None, None))
+            v_ = self.default_by_type(body_.local_ty(t_['dest']['l'])) if body_ is not None and not t_['dest']['p'] else None
+            if v_ is not None:
+                return v_
         # --- maps --------------------------------------------------------------------------------------------
         if name.startswith('alloc::collections::btree::map::') or name.startswith('std::collections::hash::map::') \
                 or name.startswith('hashbrown::'):
@@ -837,6 +852,25 @@ class Interp:
             return ('ref', cell.v[3][0])
         raise Unmodelled('%s is not modelled' % name)
 
+    def default_by_type(self, ty, loose=False):
+        """Default::default() of a std type, from the static type of the destination"""
+        h = ty_head(ty)
+        if h in ('alloc::collections::btree::set::BTreeSet', 'std::collections::hash::set::HashSet') or (loose and ('BTreeSet<' in ty or 'HashSet<' in ty)):
+            return ('set', set())
+        if h in ('alloc::collections::btree::map::BTreeMap', 'std::collections::hash::map::HashMap') or (loose and ('BTreeMap<' in ty or 'HashMap<' in ty)):
+            return ('map', MapObj('btree' if 'BTreeMap' in (h if not loose else ty) else 'hash'))
+        if h in ('alloc::vec::Vec', 'smallvec::SmallVec') or (loose and 'Vec<' in ty):
+            return ('vec', [])
+        if ty == 'bool':
+            return ('bool', False)
+        if ty in INT_WIDTH:
+            return ('int', 0)
+        if h == 'core::option::Option':
+            return mk_option(None)
+        if ty == '()':
+            return UNIT
+        return None
+
     def model_map(self, name, seg, A, depth):
         if '::entry::' in name or name.startswith('std::collections::hash::map::Entry') or name.startswith('std::collections::hash::map::OccupiedEntry') \
                 or name.startswith('std::collections::hash::map::VacantEntry'):
@@ -942,13 +976,8 @@ class Interp:
                     else:
                         body, t = getattr(self, 'cur', (None, None))
                         ty = body.local_ty(t['dest']['l']) if body is not None else ''
-                        if 'BTreeSet<' in ty or 'HashSet<' in ty:
-                            val = ('set', set())
-                        elif 'BTreeMap<' in ty or 'HashMap<' in ty:
-                            val = ('map', MapObj('btree' if 'BTreeMap<' in ty else 'hash'))
-                        elif 'Vec<' in ty:
-                            val = ('vec', [])
-                        else:
+                        val = self.default_by_type(ty.lstrip('&').replace('mut ', '', 1) if ty.startswith('&') else ty, loose=True)
+                        if val is None:
                             raise Unmodelled('or_default on a slot of type %s' % ty)
                     h[1].items[h[2]] = Cell(val)
                 return ('ref', h[1].items[h[2]])
@@ -1184,6 +1213,62 @@ class Interp:
             if seg == 'contains':
                 tgt = self.deref_all(A[1])
                 return mk_bool(any(self.deref_all(x) == tgt for x in xs))
+            if seg in ('binary_search', 'binary_search_by_key', 'binary_search_by'):
+                # the slice is sorted by the caller's invariant; the answer is the position a linear scan in key order gives
+                def kcmp(a, b):
+                    a, b = self.deref_all(a), self.deref_all(b)
+                    if a[0] == 'key' and b[0] == 'key':
+                        return (a[1] > b[1]) - (a[1] < b[1])
+                    if a[0] == 'int' and b[0] == 'int' and a[1] is not None and b[1] is not None:
+                        return (a[1] > b[1]) - (a[1] < b[1])
+                    if a[0] == 'ts' and b[0] == 'ts':
+                        return {'<': -1, '=': 0, '>': 1}[self.order.cmp(a[1], b[1])]
+                    raise Unmodelled('binary search over %s keys' % a[0])
+                for i, x in enumerate(xs):
+                    if seg == 'binary_search':
+                        c = kcmp(x, A[1])
+                    elif seg == 'binary_search_by_key':
+                        c = kcmp(self.call_closure(A[2], [('ref', Cell(x))], depth), A[1])
+                    else:
+                        o = self.deref_all(self.call_closure(A[1], [('ref', Cell(x))], depth))
+                        c = o[2] - 1
+                    if c == 0:
+                        return ('adt', 'core::result::Result', 0, [Cell(('int', i))])
+                    if c > 0:
+                        return ('adt', 'core::result::Result', 1, [Cell(('int', i))])
+                return ('adt', 'core::result::Result', 1, [Cell(('int', len(xs)))])
+            if seg in ('remove', 'swap_remove', 'insert', 'get', 'get_mut', 'index', 'index_mut', 'get_unchecked', 'get_unchecked_mut'):
+                iv = self.deref_all(A[1])
+                if iv[0] != 'int' or iv[1] is None:
+                    raise Unmodelled('%s at an unknown position' % name)
+                i = iv[1]
+                if seg == 'insert':
+                    if i > len(xs):
+                        raise PanicPath('Vec::insert out of bounds')
+                    xs.insert(i, A[2])
+                    return UNIT
+                if seg in ('get', 'get_mut'):
+                    return mk_option(('ref', Cell(xs[i]))) if i < len(xs) else mk_option(None)
+                if i >= len(xs):
+                    raise PanicPath('%s out of bounds' % seg)
+                if seg == 'remove':
+                    return xs.pop(i)
+                if seg == 'swap_remove':
+                    x = xs[i]
+                    xs[i] = xs[-1]
+                    xs.pop()
+                    return x
+                return ('ref', Cell(xs[i]))
+            if seg in ('first', 'last', 'first_mut', 'last_mut'):
+                if not xs:
+                    return mk_option(None)
+                return mk_option(('ref', Cell(xs[0 if seg.startswith('first') else -1])))
+            if seg == 'truncate':
+                iv = self.deref_all(A[1])
+                if iv[0] != 'int' or iv[1] is None:
+                    raise Unmodelled('truncate to an unknown length')
+                del xs[iv[1]:]
+                return UNIT
             raise Unmodelled('%s is not modelled' % name)
         return NotImplemented
 
